@@ -692,7 +692,16 @@ func (c *ctx) checkAlts(routine string, s int, sh path.ShortestAlts) {
 			c.failf(routine+".WeightTo", s, t, "got %v, true distance %v", wt, want)
 			continue
 		}
-		c.checkTo(routine+".To", s, t, p, w, true)
+		if c.present(s) && c.present(t) && c.r.cutRisk(s, t, false) {
+			// The answer depends on the uncontrolled random choice (finding 7):
+			// sampled until decided in the group "zero-cycle-cut".
+			c.t.Count("cut_risk_queries_deferred", 1)
+			if w != want {
+				c.failf(routine+".To", s, t, "weight %v, true distance %v", w, want)
+			}
+		} else {
+			c.checkTo(routine+".To", s, t, p, w, true)
+		}
 		if !math.IsInf(want, 1) {
 			c.checkUnique(routine+".To", s, t, uniq, false)
 		}
@@ -824,10 +833,22 @@ func (c *ctx) checkAllShortest(routine string, ap path.AllShortest, forward, neg
 			}
 			want := c.want(s, t)
 			if wt != want {
+				if forward && s == t && c.present(s) && c.sp.has[s][s] && wt == c.sp.w[s][s] && w == wt {
+					c.classed("fw-selfloop-diagonal", routine+".Weight/Between", s, t,
+						"node with a self loop of weight %v: Weight(u,u) = %v and Between(u,u) = (%s, %v); the distance from a node to itself is 0 (all other routines answer 0)", c.sp.w[s][s], wt, ids(p), w)
+					continue
+				}
 				c.failf(routine+".Weight", s, t, "got %v, true distance %v", wt, want)
 				continue
 			}
-			c.checkTo(routine+".Between", s, t, p, w, true)
+			if c.present(s) && c.present(t) && c.r.cutRisk(s, t, forward) {
+				c.t.Count("cut_risk_queries_deferred", 1)
+				if w != want {
+					c.failf(routine+".Between", s, t, "weight %v, true distance %v", w, want)
+				}
+			} else {
+				c.checkTo(routine+".Between", s, t, p, w, true)
+			}
 			if !math.IsInf(want, 1) {
 				c.checkUnique(routine+".Between", s, t, uniq, forward)
 			}
